@@ -58,32 +58,45 @@ def load_known_findings() -> list[dict]:
     return [e for e in data.get("findings", []) if e.get("status", "open") == "open"]
 
 
-# --------------------------------------------------------------------------- ledger of inputs known to fail
-# A known finding is a *condition* (call site, input/output shape).  A condition alone would also excuse a new defect
-# that happens to fail on an input of the same shape, so every (finding, input) pair that fails on the tree on which the
-# findings were recorded is listed in known_inputs/<PROP>.<tier>.txt (12 hex digits of sha1(finding key | input key)).
-# On the registered universe (VERIF_SEED=0, PYTHONHASHSEED=0) a failure is attributed to a finding only if its condition
-# holds AND the pair is listed; an unlisted pair is reported as a violation.  The files are written only by
-# `VERIF_RECORD=1 ./check <id> --tier <tier>` (tools/record_known_inputs.sh), never by a registered command.
-LEDGER_DIR = ROOT / "known_inputs"
-RECORDING = os.environ.get("VERIF_RECORD") == "1"
-_ledger_cache: dict = {}
+# --------------------------------------------------------------------------- narrowing of known findings
+# A known finding is listed in known_findings.json by a *condition* (call site, input/output shape).  A condition alone
+# would also excuse a new defect that happens to fail on an input of the same shape.  Therefore /verif/baseline/src holds
+# a snapshot of src/y0 as it was when the open findings were recorded (tools/snapshot_baseline.sh; commit in
+# baseline/COMMIT), and a failure is attributed to a finding only if its condition holds AND the same replay payload
+# (same input, same counterexample model) also reproduces against that snapshot, i.e. this specific input already failed
+# in this way on the recorded tree.  A failure that the snapshot does not reproduce is reported as a violation.
+# The snapshot is only ever used for this attribution; every check runs against /repo.
+BASELINE = ROOT / "baseline"
 
 
-def ledger_hash(finding_key: str, input_key: str) -> str:
-    return hashlib.sha1(f"{finding_key}|{input_key}".encode()).hexdigest()[:12]
+def baseline_commit() -> str | None:
+    f = BASELINE / "COMMIT"
+    return f.read_text().strip() if f.exists() and (BASELINE / "src" / "y0").is_dir() else None
 
 
-def registered_universe() -> bool:
-    return seed() == 0 and os.environ.get("PYTHONHASHSEED", "") == "0"
+def baseline_replay(prop: str, payloads: list[dict]) -> list[int]:
+    """Replay codes (1 = reproduced) of the payloads against the recorded snapshot, computed in fresh interpreters."""
+    import subprocess
+    import tempfile
 
-
-def load_ledger(prop: str):
-    """Union of the recorded tiers, or None if nothing was recorded for this property."""
-    if prop not in _ledger_cache:
-        files = sorted(LEDGER_DIR.glob(f"{prop}.*.txt"))
-        _ledger_cache[prop] = {h for f in files for h in f.read_text().split()} if files else None
-    return _ledger_cache[prop]
+    if not payloads:
+        return []
+    n = max(1, min(NPROC, len(payloads) // 20 + 1))
+    chunks = [payloads[i::n] for i in range(n)]
+    env = dict(os.environ, PYTHONPATH=f"{ROOT}:{BASELINE}/src", VERIF_REPO=str(BASELINE), VERIF_NPROC="1")
+    env.pop("VERIF_SCRATCH", None)
+    procs = []
+    for ch in chunks:
+        f = tempfile.TemporaryFile("w+")
+        f.write("\n".join(json.dumps(p, sort_keys=True, default=str) for p in ch) + "\n")
+        f.seek(0)
+        procs.append(subprocess.Popen([sys.executable, "-m", "vf.baseline_replay", prop], stdin=f, stdout=subprocess.PIPE, stderr=subprocess.DEVNULL, text=True, env=env, cwd=str(ROOT)))
+    codes = [3] * len(payloads)
+    for k, pr in enumerate(procs):
+        out = pr.communicate()[0].split()
+        for j, c in enumerate(out[: len(chunks[k])]):
+            codes[k + j * n] = int(c) if c.lstrip("-").isdigit() else 3
+    return codes
 
 
 def match_known(prop: str, keys: Iterable[str]) -> dict | None:
@@ -141,7 +154,7 @@ class Report:
     harness_errors: list[str] = field(default_factory=list)
     t0: float = field(default_factory=time.time)
     counters: dict = field(default_factory=dict)
-    recorded: set = field(default_factory=set)
+    pending: list = field(default_factory=list)
 
     def count(self, key: str, n: int = 1) -> None:
         self.counters[key] = self.counters.get(key, 0) + n
@@ -153,32 +166,38 @@ class Report:
     def add_violation(self, v: Violation) -> None:
         e = match_known(v.prop, v.keys)
         if e is not None:
-            h = ledger_hash(e["key"], v.keys[0])
-            ledger = load_ledger(v.prop)
-            if RECORDING:
-                self.recorded.add(h)
-            elif ledger is not None and registered_universe() and h not in ledger:
-                v.what += f" [the condition of known finding {e['key']} holds, but this input is not among the inputs recorded as failing when the finding was recorded (known_inputs/)]"
-                self.count("finding_condition_but_unlisted_input")
-                self.violations.append(v)
-                return
-            self.known.append((e, v))
+            self.pending.append((e, v))  # decided in finish(): the condition holds; does the recorded snapshot fail too?
         else:
             self.violations.append(v)
+
+    def resolve_pending(self) -> None:
+        if not self.pending:
+            return
+        commit = baseline_commit()
+        if commit is None or os.environ.get("VERIF_NO_BASELINE") == "1":
+            self.known.extend(self.pending)
+            self.extra["known_finding_attribution"] = "condition only (no baseline snapshot available)"
+            self.pending = []
+            return
+        t0 = time.time()
+        codes = baseline_replay(self.prop, [v.replay for _, v in self.pending])
+        for (e, v), c in zip(self.pending, codes):
+            if c == 1:
+                self.known.append((e, v))
+            elif c == 0:
+                v.what += f" [the condition of known finding {e['key']} holds, but this input does not fail on the snapshot of y0 taken when the finding was recorded ({commit[:7]}): a new failure]"
+                self.count("finding_condition_but_new_failure")
+                self.violations.append(v)
+            else:
+                self.harness_errors.append(f"baseline replay failed (code {c}) for {short(v.what, 200)}")
+        self.extra["known_finding_attribution"] = f"condition AND the same replay payload reproduces on the snapshot of y0 at {commit[:12]} ({len(codes)} payloads replayed in {time.time() - t0:.0f} s)"
+        self.pending = []
 
     # -- finishing ------------------------------------------------------------------
     def finish(self) -> int:
         wall = time.time() - self.t0
         EVIDENCE_DIR.mkdir(parents=True, exist_ok=True)
-        if RECORDING:
-            if not registered_universe() or self.violations or self.harness_errors:
-                print("RECORD refused: needs VERIF_SEED=0, PYTHONHASHSEED=0 and a run without violations or harness errors")
-            else:
-                LEDGER_DIR.mkdir(exist_ok=True)
-                f = LEDGER_DIR / f"{self.prop}.{tier()}.txt"
-                old = set(f.read_text().split()) if f.exists() and os.environ.get("VERIF_RECORD_MERGE") == "1" else set()
-                f.write_text("\n".join(sorted(old | self.recorded)) + "\n")
-                print(f"RECORDED {len(old | self.recorded)} (finding, input) pairs in {f}")
+        self.resolve_pending()
         seen_known = {}
         for e, v in self.known:
             seen_known.setdefault(e["key"], (e, v, 0))
@@ -212,7 +231,6 @@ class Report:
             "solver_seconds": round(self.solver_s, 3),
             "counters": self.counters,
             "known_findings_matched": sorted(seen_known),
-            "known_finding_attribution": ("condition and listed input (known_inputs/)" if load_ledger(self.prop) is not None and registered_universe() else "condition only"),
             "harness_errors": self.harness_errors[:10],
         }
         coverage.update(self.extra)
